@@ -413,6 +413,196 @@ theorem result_values_deep (fn : Fn V) : ∀ (p : Path) (o : Opts) (pre : Path) 
         rw [nestedOthers_argAtPath o.hasDefault (.node m2 e2) k k' q hempty others os' hn1]
         simp [List.getLast?_cons_cons, List.dropLast_cons_cons]
 
+/-- **result values on the unvalidated path too** (`apply`, `named_apply`; any `checked`): the fresh result holds,
+under each key of self, the same leaves as the function's value (called entries) or as the nested result (nested
+entries) — `_validate_value` only re-labels devices / names of nested tensordicts -/
+theorem result_values_leaves (o : Opts) (fn : Fn V) (pre : Path) (m : Meta) (es : Entries V) (others : List (Tree V))
+    (r : Tree V) (hin : o.inplace = false) (hnd : es.keys.Nodup)
+    (h : applyNode o fn pre (.node m es) others none = .ok (some r)) :
+    ∃ rm res, r = .node rm res ∧
+      (∀ k item, es.get? k = some item → (!o.callOnNested && !isLeafFor o.nodeAsLeaf item) = false →
+        LeafEq (res.get? k) (fn (fnKey o.named o.nestedKeys pre k) item (others.map (fun ot => argOf ot k)))) ∧
+      (∀ k item, es.get? k = some item → (!o.callOnNested && !isLeafFor o.nodeAsLeaf item) = true →
+        ∃ os' rn, nestedOthers o.hasDefault item k others = .ok os' ∧
+          applyNode { o with names := .noDefault, callOnNested := false } fn (pre ++ [k]) item os' none = .ok rn ∧
+          LeafEq (res.get? k) rn) := by
+  have hs : startResult o (.node m es) none = .ok none := by simp [startResult, hin]
+  simp only [applyNode, hs] at h
+  cases he : applyEntries o fn pre es others none with
+  | error e => simp [he] at h
+  | ok oc =>
+    simp only [he, assemble] at h
+    have hkeys := applyEntries_keys o fn pre es others _ oc he
+    cases hw : writeOutcomes o.checked (makeResult o m) none oc with
+    | error e => simp [hw] at h
+    | ok r0 =>
+      simp only [hw] at h
+      have hr : r = r0.getD (makeResult o m) := by
+        split at h
+        · cases h
+        · split at h
+          · cases h
+          · injection h with h; injection h with h; exact h.symm
+      have hres : ∃ rm res, r = Tree.node rm res ∧
+          ∀ k, LeafEq (res.get? k) (pickOutcome (List.lookup k oc) none) := by
+        rcases writeOutcomes_start_none o.checked (makeResult o m) oc r0 hw with ⟨e, hall⟩ | hw'
+        · subst e
+          refine ⟨_, .nil, hr, fun k => ?_⟩
+          rw [lookup_none_of_all_none oc hall k]; exact LeafEq.refl _
+        · unfold makeResult at hw'
+          obtain ⟨m', es', e, hg⟩ := writeOutcomes_leafEq o.checked _ oc _ .nil r0 (hkeys ▸ hnd) hw'
+          subst e
+          exact ⟨m', es', hr, fun k => by simpa [Entries.get?] using hg k⟩
+      obtain ⟨rm, res, e, hg⟩ := hres
+      refine ⟨rm, res, e, ?_, ?_⟩
+      · intro k item hk hc
+        have := hg k
+        rw [applyEntries_call o fn pre es others _ oc he k item hk hc] at this
+        cases hf : fn (fnKey o.named o.nestedKeys pre k) item (others.map (fun ot => argOf ot k)) with
+        | none => simpa [hf] using this
+        | some t => simpa [hf] using this
+      · intro k item hk hc
+        obtain ⟨os', rn, h1, h2, h3⟩ := applyEntries_nested o fn pre es others _ oc he k item hk hc
+        rw [show (if o.inplace = true then (none : Option (Tree V)) else outChild none k) = none from by
+          simp [outChild]] at h2
+        refine ⟨os', rn, h1, h2, ?_⟩
+        have := hg k
+        rw [h3] at this
+        cases rn with
+        | none => simpa using this
+        | some t => simpa using this
+
+/-- **result values at any depth, validated or not** (`apply`, `named_apply`, `_fast_apply`): for every leaf of self
+at nested key `p`, the leaf the fresh result holds under `p` is the leaf the function returns for that entry and the
+operands' entries under the same nested key (none when it returns `None` or a non-leaf). -/
+theorem result_leaves_deep (fn : Fn V) : ∀ (p : Path) (o : Opts) (pre : Path) (m : Meta) (es : Entries V)
+    (others : List (Tree V)) (res : Option (Tree V)) (v : V),
+    o.inplace = false → o.callOnNested = false → o.nodeAsLeaf = false →
+    Tree.wf (.node m es) = true →
+    applyNode o fn pre (.node m es) others none = .ok res →
+    Tree.sub (.node m es) p = some (.leaf v) → p ≠ [] →
+    (res.bind (fun r => Tree.leafAt r p)) =
+      (fn (fnKey o.named o.nestedKeys (pre ++ p.dropLast) (p.getLast?.getD "")) (.leaf v)
+        (others.map (argAtPath p))).bind (fun t => Tree.leafAt t [])
+  | [], _, _, _, _, _, _, _, _, _, _, _, _, _, hp => absurd rfl hp
+  | [k], o, pre, m, es, others, res, v, hin, hcon, hnal, hw, h, hs, _ => by
+    simp only [Tree.wf, Bool.and_eq_true, decide_eq_true_eq] at hw
+    simp only [Tree.sub] at hs
+    cases hg : es.get? k with
+    | none => simp [hg] at hs
+    | some t =>
+      simp only [hg, Tree.sub] at hs; injection hs with hs; subst hs
+      have hc : (!o.callOnNested && !isLeafFor o.nodeAsLeaf (Tree.leaf v)) = false := by simp [isLeafFor]
+      have hargs : others.map (argAtPath [k]) = others.map (fun ot => argOf ot k) := by
+        apply List.map_congr_left; intro ot _; rfl
+      simp only [List.dropLast_singleton, List.append_nil, List.getLast?_singleton, Option.getD_some, hargs]
+      cases res with
+      | none =>
+        obtain ⟨oc, he, hset⟩ := applyNode_none o fn pre m es others hin h
+        have := applyEntries_call o fn pre es others none oc he k _ hg hc
+        have := anySet_false_lookup oc hset k _ this
+        simp [this]
+      | some r =>
+        obtain ⟨rm, rs, e, h1, _⟩ := result_values_leaves o fn pre m es others r hin hw.1 h
+        subst e
+        have := h1 k _ hg hc []
+        simp only [Option.bind_some, leafAt_node_cons]
+        exact this
+  | k :: k' :: q, o, pre, m, es, others, res, v, hin, hcon, hnal, hw, h, hs, _ => by
+    simp only [Tree.wf, Bool.and_eq_true, decide_eq_true_eq] at hw
+    simp only [Tree.sub] at hs
+    cases hg : es.get? k with
+    | none => simp [hg] at hs
+    | some item =>
+      simp only [hg] at hs
+      cases item with
+      | leaf w => simp [Tree.sub] at hs
+      | node m2 e2 =>
+        have hw2 := wf_get? es k _ hw.2 hg
+        have hc : (!o.callOnNested && !isLeafFor o.nodeAsLeaf (Tree.node m2 e2)) = true := by
+          simp [isLeafFor, hcon, hnal]
+        have hnest : ∃ os' rn, nestedOthers o.hasDefault (Tree.node m2 e2) k others = .ok os' ∧
+            applyNode { o with names := .noDefault, callOnNested := false } fn (pre ++ [k]) (.node m2 e2) os' none = .ok rn ∧
+            (res.bind (fun r => Tree.leafAt r (k :: k' :: q))) = rn.bind (fun r => Tree.leafAt r (k' :: q)) := by
+          cases res with
+          | none =>
+            obtain ⟨oc, he, hset⟩ := applyNode_none o fn pre m es others hin h
+            obtain ⟨os', rn, h1, h2, h3⟩ := applyEntries_nested o fn pre es others none oc he k _ hg hc
+            rw [show (if o.inplace = true then (none : Option (Tree V)) else outChild none k) = none from by
+              simp [outChild]] at h2
+            have := anySet_false_lookup oc hset k _ h3
+            subst this
+            exact ⟨os', none, h1, h2, rfl⟩
+          | some r =>
+            obtain ⟨rm, rs, e, _, h2⟩ := result_values_leaves o fn pre m es others r hin hw.1 h
+            subst e
+            obtain ⟨os', rn, h3, h4, h5⟩ := h2 k _ hg hc
+            refine ⟨os', rn, h3, h4, ?_⟩
+            simp only [Option.bind_some, leafAt_node_cons]
+            exact h5 (k' :: q)
+        obtain ⟨os', rn, hn1, hn2, hn3⟩ := hnest
+        have ih := result_leaves_deep fn (k' :: q) { o with names := .noDefault, callOnNested := false } (pre ++ [k])
+          m2 e2 os' rn v hin rfl hnal hw2 hn2 hs (by simp)
+        rw [hn3, ih]
+        have hempty := argAtPath_emptyRec (k' :: q) m2 e2 v (by simp) hw2 hs
+        rw [nestedOthers_argAtPath o.hasDefault (.node m2 e2) k k' q hempty others os' hn1]
+        simp [List.getLast?_cons_cons, List.dropLast_cons_cons]
+
+/-- **frame, validated or not** (`apply_`, `apply(out=…)`, …): when the call writes into an existing object (`self` for
+`inplace`, else `out`), the returned object holds under every key the same leaves as the outcome when the function
+returned a value, else the same leaves as before; keys that are not keys of self keep their leaves. -/
+theorem target_frame_leaves (o : Opts) (fn : Fn V) (pre : Path) (m : Meta) (es : Entries V) (others : List (Tree V))
+    (out : Option (Tree V)) (ms : Meta) (es0 : Entries V) (r : Tree V) (hnd : es.keys.Nodup)
+    (hs : startResult o (.node m es) out = .ok (some (.node ms es0)))
+    (h : applyNode o fn pre (.node m es) others out = .ok (some r)) :
+    ∃ oc ms' es', applyEntries o fn pre es others (some (.node ms es0)) = .ok oc ∧ r = .node ms' es' ∧
+      ms'.batch = ms.batch ∧ ms'.device = ms.device ∧ ms'.locked = ms.locked ∧
+      (∀ k, LeafEq (es'.get? k) (pickOutcome (List.lookup k oc) (es0.get? k))) ∧
+      (∀ k, k ∉ es.keys → LeafEq (es'.get? k) (es0.get? k)) := by
+  simp only [applyNode, hs] at h
+  cases he : applyEntries o fn pre es others (some (.node ms es0)) with
+  | error e => simp [he] at h
+  | ok oc =>
+    simp only [he, assemble] at h
+    have hkeys := applyEntries_keys o fn pre es others _ oc he
+    cases hw : writeOutcomes o.checked (makeResult o m) (some (.node ms es0)) oc with
+    | error e => simp [hw] at h
+    | ok r0 =>
+      simp only [hw] at h
+      obtain ⟨ms', es', e, hg⟩ := writeOutcomes_leafEq o.checked (makeResult o m) oc ms es0 r0 (hkeys ▸ hnd) hw
+      obtain ⟨m2, e2, e', hb, hd, hl, _⟩ := writeOutcomes_meta o.checked (makeResult o m) oc ms es0 r0 hw
+      subst e
+      injection e' with e'; injection e' with e1 e2'; subst e1; subst e2'
+      have hr : r = .node ms' es' := by
+        split at h
+        · cases h
+        · split at h
+          · cases h
+          · injection h with h; injection h with h; simpa using h.symm
+      refine ⟨oc, ms', es', rfl, hr, hb, hd, hl, hg, fun k hk => ?_⟩
+      have := hg k
+      rw [lookup_none_of_not_key oc k (hkeys ▸ hk)] at this
+      simpa using this
+
+/-- `inplace=True` on any front-end: self's entries keep their leaves where the function returns `None`, hold the
+function's leaf where it returns one -/
+theorem inplace_frame_leaves (o : Opts) (fn : Fn V) (pre : Path) (m : Meta) (es : Entries V) (others : List (Tree V))
+    (out : Option (Tree V)) (r : Tree V) (hin : o.inplace = true) (hnd : es.keys.Nodup)
+    (h : applyNode o fn pre (.node m es) others out = .ok (some r)) :
+    ∃ m' es', r = .node m' es' ∧ m'.batch = m.batch ∧ m'.device = m.device ∧ m'.locked = m.locked ∧
+      ∀ k item, es.get? k = some item → (!o.callOnNested && !isLeafFor o.nodeAsLeaf item) = false →
+        LeafEq (es'.get? k) (match fn (fnKey o.named o.nestedKeys pre k) item (others.map (fun ot => argOf ot k)) with
+                             | some t => some t
+                             | none => some item) := by
+  have hs : startResult o (.node m es) out = .ok (some (.node m es)) := by simp [startResult, hin]
+  obtain ⟨oc, m', es', he, hr, hb, hd, hl, hg, _⟩ := target_frame_leaves o fn pre m es others out m es r hnd hs h
+  refine ⟨m', es', hr, hb, hd, hl, fun k item hk hc => ?_⟩
+  have := hg k
+  rw [applyEntries_call o fn pre es others _ oc he k item hk hc, hk] at this
+  cases hf : fn (fnKey o.named o.nestedKeys pre k) item (others.map (fun ot => argOf ot k)) with
+  | none => simpa [hf] using this
+  | some t => simpa [hf] using this
+
 /-- **others_by_key**: re-inserting the entries of any operand in another order changes nothing — every operand
 entry reaches the function through a lookup under self's key -/
 theorem others_by_key (o : Opts) (fn : Fn V) (pre : Path) (others' others : List (Tree V))
